@@ -424,7 +424,7 @@ func validateParamHeaders(header http.Header, msg *jsonrpc.Request, tool *Tool) 
 			continue
 		}
 
-		if headerVal == "" {
+		if headerVal == "" && len(header.Values(fullHeader)) == 0 {
 			return fmt.Errorf("header mismatch: missing %s header for parameter %q", fullHeader, strings.Join(b.Path, "."))
 		}
 
